@@ -23,7 +23,7 @@ func init() {
 		},
 		NumCases: func(tier string) int {
 			if tier == "thorough" {
-				return 40000
+				return 12000
 			}
 			return 2500
 		},
